@@ -10,3 +10,6 @@ pub assume_specification [<i64 as TryFrom<u64>>::try_from] (x: u64) -> (r: std::
     ensures r.is_ok() <==> x <= i64::MAX, r matches Ok(v) ==> v == x;
 pub assume_specification [i64::wrapping_neg] (x: i64) -> (r: i64)
     ensures r == (if x == i64::MIN { i64::MIN } else { (-(x as int)) as i64 });
+pub assume_specification [usize::div_ceil] (x: usize, y: usize) -> (r: usize)
+    requires y != 0,
+    ensures r as int == (x as int + y as int - 1) / (y as int);
